@@ -22,7 +22,8 @@ import (
 // ---- the common subset: generator hooks (bundleOpts{jsSafe: true, …}) ----
 
 var c04Ints = []int{0, 1, 2, 3, 7, -1, 12, -5, 100}
-var c04Floats = []float64{0.5, 1.25, 2.5, 3.0, 0.125, 10.75}
+// (no negative x.5: round() of a negative half is the known divergence c04:round-negative-half)
+var c04Floats = []float64{0.5, 1.25, 2.5, 3.0, 0.125, 10.75, 1500000.5, 0.00001, 2.5e-7, 123456789.125, -1.25, -3.0, 0.1, -0.75, 1e-7}
 // (no double quote: soy.$$escapeHtml writes &quot; where the Go escaper writes &#34; — hand case c04:escapeHtml-double-quote)
 var c04Strs = []string{"", "abc", "<i>x</i>", "a&b", "q's", "é日本", "line1\nline2", "a b c d e f", "0", "</script>", "tab\there", "x y"}
 
@@ -45,6 +46,9 @@ func c04Lit(g *bundleGen, t ty) (string, bool) {
 	r := g.r
 	switch t {
 	case tFloat:
+		if r.Intn(5) == 0 {
+			return []string{"2.5e-7", "1500000.5", "1.0e-6", "0.000015"}[r.Intn(4)], true
+		}
 		return strconv.Itoa(r.Intn(9)) + "." + []string{"5", "25", "75", "125"}[r.Intn(4)], true
 	case tStr:
 		return soyQuote(c04Strs[r.Intn(len(c04Strs))], r), true
@@ -155,8 +159,10 @@ func c04Expr(e *scopedExprGen, depth int, t ty) (string, bool) {
 // (truncate only on ASCII text, see c04Cmd: the Go directive counts bytes, soy.$$truncate UTF-16 units — hand case
 //  c04:truncate-unicode; changeNewlineToBr is escaped by Go only — hand case c04:changeNewlineToBr-escaping)
 //  insertWordBreaks likewise — hand case c04:insertWordBreaks-escaping — and its JS runs on bytes in otto)
-var c04Directives = []string{"|escapeHtml", "|noAutoescape", "|id", "|escapeHtml|noAutoescape", "|id|escapeHtml", "|noAutoescape|id"}
-var c04Truncs = []string{"|truncate:4", "|truncate:5,false", "|truncate:2,true", "|truncate:30", "|truncate:3|escapeHtml"}
+var c04Directives = []string{"|escapeHtml", "|noAutoescape", "|id", "|escapeHtml|noAutoescape", "|id|escapeHtml", "|noAutoescape|id", "|changeNewlineToBr", "|changeNewlineToBr|escapeHtml", "|escapeHtml|changeNewlineToBr"}
+var c04Truncs = []string{"|truncate:4", "|truncate:5,false", "|truncate:2,true", "|truncate:30", "|truncate:3|escapeHtml",
+	// order-sensitive chains (the generated JavaScript once applied them right to left)
+	"|truncate:9,false|escapeHtml", "|escapeHtml|truncate:10,false", "|insertWordBreaks:3", "|changeNewlineToBr", "|truncate:9,false|insertWordBreaks:2", "|insertWordBreaks:4|truncate:12", "|truncate:10,false|escapeUri|truncate:14,false"}
 
 func c04Cmd(g *bundleGen, s *gScope, depth int) (string, bool) {
 	r := g.r
@@ -332,7 +338,7 @@ func init() {
 	}
 	register(&Prop{
 		ID: "C04exec",
-		Rule: "translation validation: generated bundles of the COMMON SUBSET (well-typed operands, small ints, dyadic floats of <= 6 significant digits in 1e-4..1e6, same-type equality, round/floor/ceiling of non-negative floats only, the directives escapeHtml/noAutoescape/id/truncate/changeNewlineToBr/insertWordBreaks, no keys() order, no randomInt, strings within the BMP (otto)), " +
+		Rule: "translation validation: generated bundles of the COMMON SUBSET (well-typed operands, small ints, floats from 1e-7 to 1e9 in both notations (floor/ceiling/round of larger ones leave the integer range; larger magnitudes are hand cases), same-type equality, round/floor/ceiling of non-negative floats only, the directives escapeHtml/noAutoescape/id/truncate/changeNewlineToBr/insertWordBreaks, no keys() order, no randomInt, strings within the BMP (otto)), " +
 			"all features otherwise (control flow, let, calls across files with data=all / data=$m / value and content params, msg and plural, globals, $ij, autoescape modes, css, log, debugger, literal text); each template x 2 data sets (every declared param supplied) x {no bundle, identity bundle, reversed bundle}: " +
 			"Go renderer output versus the string returned by the soyjs-generated function run in otto with soyutils.js; plus hand-written programs for the divergences named in the property; non-trivial = the Go output is not empty",
 		Gen:     genC04exec,
@@ -415,6 +421,8 @@ type c04Hand struct {
 var c04Hands = []c04Hand{
 	{"c04:round-negative-half", "{namespace h}\n/** @param f */\n{template .t}{round($f)}{/template}\n", `{"f":-2.5}`},
 	{"c04:float-format-large", "{namespace h}\n/** @param f */\n{template .t}{$f * 1}{/template}\n", `{"f":1500000.5}`},
+	{"c04:float-format-huge", "{namespace h}\n/** @param f\n @param g */\n{template .t}{$f * 1} {$g} {1.5e22} {6.02e23 * 1} {-$f}{/template}\n", `{"f":1e21,"g":1e300}`},
+	{"c04:float-format-tiny", "{namespace h}\n/** @param f\n @param g */\n{template .t}{$f * 1} {$g} {2.5e-7} {1.0e-6} {-$f}{/template}\n", `{"f":1e-7,"g":1.5e-300}`},
 	{"c04:float-format-small", "{namespace h}\n/** @param f */\n{template .t}{$f * 1}{/template}\n", `{"f":0.00001}`},
 	{"c04:negative-zero", "{namespace h}\n/** @param f */\n{template .t}{$f * 0}{/template}\n", `{"f":-2.5}`},
 	{"c04:integral-float-literal", "{namespace h}\n{template .t}{3.0}{1.0 + 2}{/template}\n", `{}`},
@@ -441,6 +449,9 @@ var c04Hands = []c04Hand{
 	{"c04:truncate-unicode", "{namespace h}\n/** @param s */\n{template .t}{$s|truncate:3}{$s|truncate:4,false}{/template}\n", `{"s":"é日本語テキスト"}`},
 	{"c04:insertWordBreaks-entity", "{namespace h}\n/** @param s */\n{template .t}{$s|insertWordBreaks:3}{/template}\n", `{"s":"abcdef&amp;ghijkl <b>mnopqr</b>"}`},
 	{"c04:insertWordBreaks-escaping", "{namespace h}\n{template .t}{'a&b'|insertWordBreaks:3}{/template}\n", `{}`},
+	{"c04:directive-order", "{namespace h}\n/** @param s */\n{template .t}{$s|truncate:4,false|escapeHtml}{/template}\n", `{"s":"a<b>c"}`},
+	{"c04:directive-order", "{namespace h}\n/** @param s */\n{template .t autoescape=\"false\"}{$s|escapeHtml|truncate:4,false}{/template}\n", `{"s":"a<b>c"}`},
+	{"c04:directive-order", "{namespace h}\n/** @param s */\n{template .t}{$s|truncate:4,false}{/template}\n", `{"s":"a<b>c"}`},
 	{"c04:undefined-print", "{namespace h}\n/** @param? s */\n{template .t}{$s}{/template}\n", `{}`},
 	{"c04:switch-mixed", "{namespace h}\n/** @param i */\n{template .t}{switch $i}{case '1'}S{case 1}I{default}D{/switch}{/template}\n", `{"i":1}`},
 	{"c04:plural-float", "{namespace h}\n/** @param n */\n{template .t}{msg desc=\"\"}{plural $n}{case 1}one{default}{$n} many{/plural}{/msg}{/template}\n", `{"n":1}`},
